@@ -90,6 +90,37 @@ def check_gate(case, env, acc):
     acc.sample({"gate": label, "basis_inputs": 2 ** n, "target": "literal matrix, big-endian"}, limit=3)
 
 
+def check_sequences(env, acc):
+    """Gates built one after another in the same process: what an earlier constructor call did (a nearby angle, an
+    edited instance) must not leak into a later one."""
+    for nm in ("Rx", "Ry", "Rz", "P"):
+        for t in (0.8, env.PH[0], -env.PH[1], math.pi / 4):
+            seq = [t, t + 4e-4, t - 3e-4, t + 1e-7, t]
+            for k, th in enumerate(seq):
+                cc = {"gate": "%s(%r)" % (nm, th), "built_after": seq[:k], "seed": env.seed, "scenario": "sequence"}
+                acc.tick("executions"); acc.tick("transitions")
+                circ = getattr(qubit, nm)(th)
+                A, _, _ = rq.circuit_gate_matrix(circ, 1)
+                s2, err = rq.compare_up_to_scalar(A, rq.single(nm, th))
+                if err > TOL or abs(s2 - 1) > 1e-9:
+                    acc.violation("not_the_named_gate", cc, {"max_err": err, "s2": s2})
+                acc.state("seq", nm, t, k)
+                if k:
+                    acc.nontriv("seq", nm, t, k)
+    fixed = [("H", (), 1), ("S", (), 1), ("SX", (), 1), ("CZ", (), 2), ("CNOT", (1,), 2), ("CZ_Heralded", (), 2), ("CCZ", (), 3)]
+    for cls, args, n in fixed:
+        acc.tick("executions"); acc.tick("transitions")
+        first = getattr(qubit, cls)(*args)
+        A0, _, _ = rq.circuit_gate_matrix(first, n)
+        first.ps(0, 0.3); first.bs(0, reflectivity=0.3)            # the caller edits its own instance
+        second = getattr(qubit, cls)(*args)
+        A1, _, _ = rq.circuit_gate_matrix(second, n)
+        if np.abs(A1 - A0).max() > TOL:
+            acc.violation("editing_one_instance_changed_the_next", {"gate": cls, "seed": env.seed, "scenario": "sequence"},
+                          {"max_diff": float(np.abs(A1 - A0).max())})
+        acc.state("seq-fixed", cls)
+
+
 def check_swaps(env, acc, max_mode):
     G = rq.swap(2, 0, 1)
     for tup in itertools.permutations(range(max_mode + 1), 4):
@@ -161,13 +192,17 @@ def run(tier, seed):
     sw = kernel.Acc()
     check_swaps(env, sw, 4 if tier == "quick" else 6)
     acc.merge(sw)
+    sq = kernel.Acc()
+    check_sequences(env, sq)
+    acc.merge(sq)
     meta = {
         "rule": "every class of lightworks.qubit x angle alphabet {0, pi/2, pi, generic, negative generic, 2pi+generic"
                 " (+6 more in thorough)} x every target_qubit option (and the default) x SWAP on every 4-tuple of "
                 "distinct modes in 0..4 (0..5 thorough) + invalid tuples/targets; for every basis input and every "
                 "heralds-satisfied output with the right photon number the amplitude (RefFock on U_full) is compared "
                 "with s x literal gate matrix, |s|^2 in {1,1/9,1/16,1/72}; heralded gates: no amplitude outside the "
-                "qubit subspace. distinct_nontrivial = gate instances that are not a pure global phase.",
+                "qubit subspace. Sequences in one process: each rotation gate at 4 angles followed by angles 4e-4, 3e-4, "
+                "1e-7 away and the same angle again; fixed gates rebuilt after the first instance was edited. distinct_nontrivial = gate instances that are not a pure global phase.",
         "exhaustive": True,
         "bounds": {"gate_instances": len(cases), "swap_mode_range": 4 if tier == "quick" else 6},
         "assumptions": ["big-endian convention (qubit 0 = first rail pair)", "linearity: basis inputs suffice",
@@ -179,6 +214,9 @@ def run(tier, seed):
 def replay(w, acc):
     case = w["case"]
     env = Env(case.get("seed", 0))
+    if case.get("scenario") == "sequence":
+        check_sequences(env, acc)
+        return
     if case.get("gate") == "SWAP" or "target" in case:
         check_swaps(env, acc, 5)
         return
